@@ -311,14 +311,50 @@ class Ctx:
         self.plan = plan
 
 
+def script_mode():
+    """True while the current shard runs in the script pipeline (see run_property): every source the
+    harness evaluates first goes through the interpreter's static pass `warn`, as the command-line
+    interpreter does with a script file.  Modules consult this only to leave out cases whose
+    expectation assumes REPL-style late binding of a global that a later statement reassigns."""
+    return os.environ.get("NLMON_PIPELINE") == "script"
+
+
+def _tag_script(d):
+    """Violations seen in the script pass: make the replay job reproduce the pipeline."""
+    def walk(x):
+        if isinstance(x, dict):
+            if x.get("kind", "eval") == "eval" and ("stmts" in x or "prelude" in x) and "pipeline" not in x:
+                x["pipeline"] = "script"
+            for v in x.values():
+                walk(v)
+        elif isinstance(x, list):
+            for v in x:
+                walk(v)
+    for v in d.get("violations", []):
+        v["what"] = "[script pipeline] " + str(v.get("what"))
+        walk(v.get("replay"))
+    return d
+
+
 def _run_shard(args):
-    modname, ctx, i, n = args
+    modname, ctx, i, n = args[:4]
+    pipeline = args[4] if len(args) > 4 else "plain"
     try:
+        if pipeline == "script":
+            os.environ["NLMON_PIPELINE"] = "script"
+        else:
+            os.environ.pop("NLMON_PIPELINE", None)
         mod = __import__("vf.props." + modname, fromlist=["shard"])
         sh = mod.shard(ctx, i, n)
-        return sh.dump()
+        d = sh.dump()
+        d["pipeline"] = pipeline
+        if pipeline == "script":
+            _tag_script(d)
+        return d
     except Exception:
         return {"error": traceback.format_exc(), "shard": i}
+    finally:
+        os.environ.pop("NLMON_PIPELINE", None)
 
 
 # ---------------------------------------------------------------- known findings
@@ -339,15 +375,28 @@ def run_property(prop, modname, tier, seed, level="exploration", min_nontrivial=
     plan = mod.PLAN[tier]
     ctx = Ctx(prop, tier, seed, plan)
     n = nshards or plan.get("shards", NPROC)
-    if n == 1:
-        dumps = [_run_shard((modname, ctx, 0, 1))]
+    # second pass through the script pipeline (the static pass `warn` before evaluation, as the
+    # command-line interpreter runs a file): every `script_every`-th shard is run again that way;
+    # VERIF_PIPELINE=plain|script|both overrides (both = every shard in both pipelines)
+    forced = os.environ.get("VERIF_PIPELINE", "")
+    every = plan.get("script_every", getattr(mod, "SCRIPT_EVERY", {}).get(tier, 3 if tier == "quick" else 1))
+    tasks = [(modname, ctx, i, n, "plain") for i in range(n)]
+    if forced == "script":
+        tasks = [(modname, ctx, i, n, "script") for i in range(n)]
+    elif forced == "both":
+        tasks += [(modname, ctx, i, n, "script") for i in range(n)]
+    elif forced != "plain" and every:
+        off = seed % every
+        tasks += [(modname, ctx, i, n, "script") for i in range(n) if i % every == off]
+    if len(tasks) == 1:
+        dumps = [_run_shard(tasks[0])]
     else:
         # ProcessPoolExecutor (unlike multiprocessing.Pool) notices a worker process that died
         # (e.g. killed by the OOM killer) instead of waiting for its result forever
         import concurrent.futures
         try:
             with concurrent.futures.ProcessPoolExecutor(max_workers=min(n, NPROC)) as pool:
-                dumps = list(pool.map(_run_shard, [(modname, ctx, i, n) for i in range(n)], chunksize=1))
+                dumps = list(pool.map(_run_shard, tasks, chunksize=1))
         except concurrent.futures.process.BrokenProcessPool as e:
             print("HARNESS-ERROR property=%s a driver process died (%s); not a verdict" % (prop, e))
             return 2
@@ -359,7 +408,12 @@ def run_property(prop, modname, tier, seed, level="exploration", min_nontrivial=
     nontrivial = set()
     counters = {}
     violations, inconclusive, samples, notes = [], [], [], []
+    by_pipeline = {}
     for d in dumps:
+        bp = by_pipeline.setdefault(d.get("pipeline", "plain"), {"shards": 0, "evaluations": 0, "violations": 0})
+        bp["shards"] += 1
+        bp["evaluations"] += d["evaluations"]
+        bp["violations"] += len(d["violations"])
         nontrivial |= d["nontrivial"]
         violations += d["violations"]
         inconclusive += d["inconclusive"]
@@ -409,6 +463,7 @@ def run_property(prop, modname, tier, seed, level="exploration", min_nontrivial=
         "known_findings_seen": sorted(seen_known),
         "new_violation_keys": sorted(new_keys)[:50],
         "shards": n,
+        "pipelines": by_pipeline,
     }
     if notes:
         cov["notes"] = notes[:10]
